@@ -26,9 +26,9 @@ func init() {
 		Assumptions: []string{"porcupine timeout = inconclusive", "'returns as soon as available' is judged as returning within 5 s of the lock being continuously free"},
 		NumCases: func(tier string) int {
 			if tier == "thorough" {
-				return 4 + 3000 + 40
+				return 4 + 3000 + 64
 			}
-			return 4 + 240 + 16
+			return 4 + 240 + 32
 		},
 		Race:       true,
 		MaxWorkers: 4,
@@ -41,7 +41,7 @@ func init() {
 		CaseTimeout: 40 * time.Second,
 		Run:         runC12,
 		Floors: func(tier string) map[string]int {
-			return map[string]int{"bfs_closed": 4, "bfs_transitions": 300, "histories_linearizable": 120, "blocking_returned_after_release": 6, "blocking_cancelled": 4}
+			return map[string]int{"bfs_closed": 4, "bfs_transitions": 300, "histories_linearizable": 120, "blocking_returned_after_release": 6, "blocking_cancelled": 4, "blocking_cancelled_upgrade": 1}
 		},
 	})
 }
@@ -444,6 +444,19 @@ func c12BlockingOnce(c *core.Case, last bool) (retry bool) {
 	wantExcl := c.Index%2 == 0
 	holdExcl := c.Index%4 < 2
 	cancelCase := (c.Index/4)%2 == 1
+	// the waiter may already hold the lock shared (the blocking call is then an
+	// upgrade, or a repeated shared acquire); with an exclusive holder that is
+	// impossible, so there the waiter only has an earlier hold behind it
+	waiterShared := (c.Index/16)%2 == 1
+	initial := litefs.RWMutexStateUnlocked
+	if waiterShared {
+		waiter.TryRLock()
+		if holdExcl {
+			waiter.Unlock()
+		} else {
+			initial = litefs.RWMutexStateShared
+		}
+	}
 	if !wantExcl && !holdExcl {
 		// a shared holder does not block a shared waiter: must return at once
 		holder.TryRLock()
@@ -451,6 +464,8 @@ func c12BlockingOnce(c *core.Case, last bool) (retry bool) {
 		defer cancel()
 		if err := waiter.RLock(ctx); err != nil {
 			c.Violate("C12/rlock-blocked-by-reader", "RLock did not return although only a shared lock was held: "+err.Error(), nil)
+		} else if waiter.State() != litefs.RWMutexStateShared || holder.State() != litefs.RWMutexStateShared {
+			c.Violate("C12/blocking-wrong-state", fmt.Sprintf("after RLock beside a shared holder the guards are %s / %s, expected shared / shared", waiter.State(), holder.State()), nil)
 		}
 		c.Count("ops_checked", 1)
 		c.Count("blocking_returned_after_release", 1)
@@ -511,9 +526,22 @@ func c12BlockingOnce(c *core.Case, last bool) (retry bool) {
 				c.Violate("C12/cancel-returned-nil", "blocking acquire returned nil after its context was cancelled while the lock was still held", nil)
 				return false
 			}
-			if waiter.State() != litefs.RWMutexStateUnlocked {
-				c.Violate("C12/cancel-changed-state", "cancelled acquire left the guard "+waiter.State().String(), nil)
+			if waiter.State() != initial {
+				c.Violate("C12/cancel-changed-state", fmt.Sprintf("a cancelled blocking acquire (a failed attempt) left the guard %s, it was %s before", waiter.State(), initial), nil)
 				return false
+			}
+			if holder.State() == litefs.RWMutexStateUnlocked {
+				c.Violate("C12/cancel-changed-state", "a cancelled blocking acquire released the other guard's hold", nil)
+				return false
+			}
+			if initial == litefs.RWMutexStateShared {
+				// the waiter still is a reader: nobody else may take the lock exclusively
+				third := mu.Guard()
+				if ok, _ := third.CanLock(); ok || third.TryLock() {
+					c.Violate("C12/cancel-changed-state", "after a cancelled upgrade of a shared holder a third guard can take the lock exclusively", nil)
+					return false
+				}
+				c.Count("blocking_cancelled_upgrade", 1)
 			}
 			c.Count("blocking_cancelled", 1)
 		case <-time.After(5 * time.Second):
@@ -524,7 +552,7 @@ func c12BlockingOnce(c *core.Case, last bool) (retry bool) {
 			holder.Unlock()
 			return true
 		}
-		c.Distinct(fmt.Sprintf("blocking/cancel/w%v/h%v/custom%v", wantExcl, holdExcl, customCtx))
+		c.Distinct(fmt.Sprintf("blocking/cancel/w%v/h%v/custom%v/prior%v", wantExcl, holdExcl, customCtx, waiterShared))
 		return false
 	}
 	released.Store(time.Now().UnixNano())
@@ -552,7 +580,7 @@ func c12BlockingOnce(c *core.Case, last bool) (retry bool) {
 		}
 		return true
 	}
-	c.Distinct(fmt.Sprintf("blocking/release/w%v/h%v", wantExcl, holdExcl))
+	c.Distinct(fmt.Sprintf("blocking/release/w%v/h%v/prior%v", wantExcl, holdExcl, waiterShared))
 	return false
 }
 
